@@ -14,39 +14,39 @@ import (
 type Kind int
 
 const (
-	KConst     Kind = iota // Val (nil Val = nil/zero constant)
-	KParam                 // Ref=*ssa.Parameter
-	KFree                  // Ref=*ssa.FreeVar (unbound)
-	KGlobal                // Ref=*ssa.Global (address)
-	KAlloc                 // Ref=*ssa.Alloc, N=instance (address)
-	KFunc                  // Ref=*ssa.Function
-	KFieldAddr             // Args[0]=base, Var=field
-	KIndexAddr             // Args[0]=base, Args[1]=index
-	KLoad                  // Args[0]=addr, N=version: unknown memory content
-	KField                 // Args[0]=struct value, Var=field
-	KIndex                 // Args[0]=array/string value, Args[1]=index
-	KEq                    // Args[0] == Args[1]   (canonical comparison)
-	KLt                    // Args[0] <  Args[1]
-	KNot                   // !Args[0]
-	KBin                   // Op, Args[0], Args[1]  (arithmetic / bitwise)
-	KUn                    // Op (- ^), Args[0]
-	KConv                  // Type, Args[0] (Convert / ChangeType)
-	KCall                  // N=unique instance; Ref=callee descr; Args; the tuple/result of a call
-	KExtract               // Args[0], N=index
-	KApp                   // pure application: Ref=*ssa.Function or *types.Func, Args
-	KSlice                 // Args: x, lo, hi, max (missing = nil entries replaced by KNone)
-	KNone                  // absent operand
-	KLen                   // len(Args[0])
-	KCap                   // cap(Args[0])
-	KAppend                // append(Args[0], Args[1])  (Args[1] is a slice/string value)
-	KSliceLit              // slice built from Alloc'd array literal: Args = elements
-	KMakeIface             // Args[0]
-	KClosure               // Ref=*ssa.Function, Args=bindings
-	KTypeAssert            // Args[0], Type, N=1 if comma-ok
-	KOpaque                // Ref=ssa.Value, N=instance
-	KFresh                 // N=instance, Ref=ssa.Value (havoc'ed phi / unknown)
-	KMake                  // make(...): Ref=instr, N=instance, Args=sizes
-	KLookup                // map lookup Args[0][Args[1]], N = instance (unknown content)
+	KConst      Kind = iota // Val (nil Val = nil/zero constant)
+	KParam                  // Ref=*ssa.Parameter
+	KFree                   // Ref=*ssa.FreeVar (unbound)
+	KGlobal                 // Ref=*ssa.Global (address)
+	KAlloc                  // Ref=*ssa.Alloc, N=instance (address)
+	KFunc                   // Ref=*ssa.Function
+	KFieldAddr              // Args[0]=base, Var=field
+	KIndexAddr              // Args[0]=base, Args[1]=index
+	KLoad                   // Args[0]=addr, N=version: unknown memory content
+	KField                  // Args[0]=struct value, Var=field
+	KIndex                  // Args[0]=array/string value, Args[1]=index
+	KEq                     // Args[0] == Args[1]   (canonical comparison)
+	KLt                     // Args[0] <  Args[1]
+	KNot                    // !Args[0]
+	KBin                    // Op, Args[0], Args[1]  (arithmetic / bitwise)
+	KUn                     // Op (- ^), Args[0]
+	KConv                   // Type, Args[0] (Convert / ChangeType)
+	KCall                   // N=unique instance; Ref=callee descr; Args; the tuple/result of a call
+	KExtract                // Args[0], N=index
+	KApp                    // pure application: Ref=*ssa.Function or *types.Func, Args
+	KSlice                  // Args: x, lo, hi, max (missing = nil entries replaced by KNone)
+	KNone                   // absent operand
+	KLen                    // len(Args[0])
+	KCap                    // cap(Args[0])
+	KAppend                 // append(Args[0], Args[1])  (Args[1] is a slice/string value)
+	KSliceLit               // slice built from Alloc'd array literal: Args = elements
+	KMakeIface              // Args[0]
+	KClosure                // Ref=*ssa.Function, Args=bindings
+	KTypeAssert             // Args[0], Type, N=1 if comma-ok
+	KOpaque                 // Ref=ssa.Value, N=instance
+	KFresh                  // N=instance, Ref=ssa.Value (havoc'ed phi / unknown)
+	KMake                   // make(...): Ref=instr, N=instance, Args=sizes
+	KLookup                 // map lookup Args[0][Args[1]], N = instance (unknown content)
 )
 
 // Term is a hash-consed symbolic value.
